@@ -345,7 +345,11 @@ func (m *Monitor) kindNames(w *World, t *state.VerifC07Tables) (out []finding) {
 	for k := range got {
 		if _, ok := want[k]; !ok {
 			p := strings.SplitN(k, "\x00", 2)
-			out = append(out, finding{"kind-names:stale-row:" + p[0], "ksn-stale/" + k, fmt.Sprintf("kind-service-names lists (%s, %s) but no local registration / config entry gives that name this kind", p[0], p[1])})
+			class := "instance-kind"
+			if p[0] == "connect-enabled" || p[0] == "destination" {
+				class = p[0]
+			}
+			out = append(out, finding{"kind-names:stale-row:" + class, "ksn-stale/" + k, fmt.Sprintf("kind-service-names lists (%s, %s) but no local registration / config entry gives that name this kind", p[0], p[1])})
 		}
 	}
 	// ServiceNamesOfKind must return the table's rows
@@ -699,14 +703,16 @@ func (m *Monitor) noteHistory(before, t *state.VerifC07Tables) {
 		}
 	}
 	seen := map[string]string{}
-	for _, v := range t.Services {
-		if !isLocal(v.PeerName) {
-			continue
+	for _, tt := range []*state.VerifC07Tables{before, t} {
+		for _, v := range tt.Services {
+			if !isLocal(v.PeerName) {
+				continue
+			}
+			if s, ok := seen[lower(v.ServiceName)]; ok && s != v.ServiceName {
+				m.caseNames = true
+			}
+			seen[lower(v.ServiceName)] = v.ServiceName
 		}
-		if s, ok := seen[lower(v.ServiceName)]; ok && s != v.ServiceName {
-			m.caseNames = true
-		}
-		seen[lower(v.ServiceName)] = v.ServiceName
 	}
 }
 
